@@ -33,6 +33,7 @@ func buildCases(o *vh.Opts) []Case {
 		}
 	}
 	r := vh.NewRng(o.Seed)
+	desc := gqlty.Walk(gqlty.BuildSchema15(gqlty.NewLive()).Query)
 	// fixed families first: bombs of growing depth, then the cancellation scripts
 	maxDepth := 13
 	if o.Tier == "thorough" {
@@ -57,10 +58,12 @@ func buildCases(o *vh.Opts) []Case {
 	for i := 0; i < o.N; i++ {
 		cr := r.Fork()
 		switch k := cr.Intn(100); {
-		case k < 55:
+		case k < 45:
 			cases = append(cases, genBytes(cr))
-		case k < 85:
+		case k < 70:
 			cases = append(cases, genGrammar(cr))
+		case k < 85:
+			cases = append(cases, genTyped(cr, desc))
 		case k < 90:
 			cases = append(cases, genSocket(cr))
 		default:
@@ -74,7 +77,7 @@ func runOne(e *env, c *Case) ([]gqlty.Finding, map[string]interface{}) {
 	switch c.Stream {
 	case "bytes":
 		return e.runText(c, false)
-	case "grammar":
+	case "grammar", "typed":
 		return e.runText(c, true)
 	case "bomb":
 		return e.runBomb(c)
@@ -102,7 +105,7 @@ func main() {
 	}
 
 	run := vh.NewRun("C15", o)
-	run.Rule = "six streams: bytes (random bytes, token soup, mutated valid queries + random variable maps) 55%, grammar (valid GraphQL incl. unsupported constructs, AST mirrored into Coq) 30%, socket scripts 5%, http 10%, plus fixed fragment-bomb families and cancellation scripts; non-trivial = the input got past graphql-go's parser (bytes/grammar), or is a bomb/socket/http/cancel script; distinct by stream + input text"
+	run.Rule = "six streams: bytes (random bytes, token soup, mutated valid queries + random variable maps) 45%, grammar (valid GraphQL incl. unsupported constructs, AST mirrored into Coq) 25%, typed (selection trees that follow the test schema, colliding aliases, fragments, failing resolvers; executed) 15%, socket scripts 5%, http 10%, plus fixed fragment-bomb families and cancellation scripts; non-trivial = the input got past graphql-go's parser (bytes/grammar), or is a bomb/socket/http/cancel script; distinct by stream + input text"
 	workers := runtime.NumCPU() / 2
 	if workers > 8 {
 		workers = 8
@@ -127,7 +130,7 @@ func main() {
 		}
 		nontrivial := true
 		key := c.Stream + "|" + c.QueryText() + "|" + c.Vars + "|" + c.Body + "|" + c.Target + c.When + fmt.Sprint(c.Script)
-		if c.Stream == "bytes" || c.Stream == "grammar" {
+		if c.Stream == "bytes" || c.Stream == "grammar" || c.Stream == "typed" {
 			syn, _ := res.Obs["syntax_ok"].(bool)
 			nontrivial = syn
 			if v, ok := res.Obs["verdict"].(string); ok {
@@ -178,7 +181,7 @@ func coqTerm(idx int, c *Case, obs map[string]interface{}) string {
 		return ""
 	}
 	switch c.Stream {
-	case "grammar":
+	case "grammar", "typed":
 		if !gqlty.CoqStringSafe(c.Query) {
 			return ""
 		}
